@@ -45,6 +45,8 @@ def _concat(e):
 
 
 def run(ck, m):
+    from rules.common import rule_memo_safety
+    rule_memo_safety(ck, m, "MEMO", "C12")          # first: a memoised helper also hides the code it wraps from the rules below
     fold = Folder(m.tree(CS))
     env = fold.env
     # ---- R1 ----------------------------------------------------------------------------
@@ -359,8 +361,18 @@ def run(ck, m):
         ini = next((st for t, st in stores_in(ast.Module(body=fn_.body, type_ignores=[])) if norm(t) == "cls._supported" and norm(st.value) == "False"), None)
         ck.ob("R5", fn_, ini is not None, f"{nm}.is_supported must default to not supported when there is no (valid) reply", stmt=f"{nm}.is_supported: defaults to False")
 
-    from rules.common import rule_memo_safety
-    rule_memo_safety(ck, m, "MEMO", "C12")
+    for fn_q in (fg, m.get(U, "get_terminal_name_version") if m.find(U, "get_terminal_name_version") else None, gcs):
+        if fn_q is None:
+            continue
+        for c in body_walk(fn_q):
+            if isinstance(c, ast.Call) and isinstance(c.func, ast.Attribute) and c.func.attr in ("match", "findall", "search", "fullmatch", "finditer") and norm(c.func.value).endswith("_re") and c.args:
+                t_ = trace(fn_q, c.args[0])
+                qnames = {t2.id for t2, st2 in stores_in(ast.Module(body=fn_q.body, type_ignores=[])) if isinstance(t2, ast.Name) and isinstance(st2, ast.Assign) and isinstance(st2.value, ast.Call)
+                          and (call_name(st2.value) or "") == "query_terminal"}
+                base = next((x for x in ast.walk(t_) if isinstance(x, ast.Subscript) and isinstance(x.slice, ast.Slice) and ("query_terminal(" in norm(x.value) or norm(x.value) in qnames)), None)
+                if base is not None:
+                    ck.ob("R2", enclosing_stmt(c), False, f"{fn_q.name}: the reply is cut (`{norm(base)[-60:]}`) before it is parsed: when the read ended for another reason than the expected suffix (timeout, "
+                          "unsupported DA1) the cut removes the terminator of the last real reply and the pattern no longer matches", stmt=f"{fn_q.name}: reply parsed as returned by query_terminal")
 
 
 MUTANTS = [
